@@ -8,6 +8,7 @@
 //	concat:string         the body concatenates onto a string
 //	floatsum:<type>       the body accumulates a floating-point sum (addition is not associative)
 //	pick:return           the body returns a value derived from the iteration variables
+//	pick:first-element    s[0] of a slice collected in the walk is read before the slice is sorted
 //	pick:assign           the body overwrites a variable declared outside the loop with a value derived from
 //	                      the iteration variables (last — or with a break, first — element wins)
 //	delete                the body deletes map entries (what is deleted may depend on earlier deletions)
@@ -48,7 +49,7 @@ func init() { register("MapRanges.lean", genMapRanges) }
 
 const modPrefix = "github.com/google/pprof/"
 
-var mapRangePkgs = []string{"internal/graph", "internal/report", "internal/driver"}
+var mapRangePkgs = []string{"internal/graph", "internal/report", "internal/driver", "profile"}
 
 type loadedPkg struct {
 	rel   string
@@ -330,6 +331,13 @@ func trackAfter(info *types.Info, body *ast.BlockStmt, from token.Pos, objs map[
 					}
 				}
 			}
+		case *ast.IndexExpr:
+			// s[0]: an arbitrary representative if s is still in map order
+			if x.Pos() >= from {
+				if bl, ok := x.Index.(*ast.BasicLit); ok && bl.Value == "0" && mentions(info, x.X, objs) {
+					add("INDEX0")
+				}
+			}
 		case *ast.CallExpr:
 			if x.Pos() >= from {
 				name := calleeName(info, x)
@@ -504,6 +512,69 @@ func genMapRanges(e *Env) (string, error) {
 				if fo, ok := p.info.Defs[fd.Name].(*types.Func); ok {
 					fnFull = fo.FullName()
 				}
+				// slices.Collect(maps.Keys(m)) / maps.Values(m): a slice in map order, exactly like
+				// `for k := range m { s = append(s, k) }`
+				var stack []ast.Node
+				ast.Inspect(fd.Body, func(n ast.Node) bool {
+					if n == nil {
+						stack = stack[:len(stack)-1]
+						return true
+					}
+					stack = append(stack, n)
+					call, ok := n.(*ast.CallExpr)
+					if !ok || calleeName(p.info, call) != "slices.Collect" || len(call.Args) != 1 {
+						return true
+					}
+					inner, ok := call.Args[0].(*ast.CallExpr)
+					if !ok || len(inner.Args) != 1 {
+						return true
+					}
+					if in := calleeName(p.info, inner); in != "maps.Keys" && in != "maps.Values" {
+						return true
+					}
+					st := mrSite{file: p.rel + "/" + p.names[fi], fn: funcDisplayName(fd), line: p.fset.Position(call.Pos()).Line,
+						over: src(p.fset, inner.Args[0]), sink: "append (slices.Collect of the map's keys/values)", fnObj: p.info.Defs[fd.Name]}
+					if tv, ok := p.info.Types[inner.Args[0]]; ok {
+						st.mapType = typeStr(tv.Type)
+					}
+					if tv, ok := p.info.Types[call]; ok {
+						st.sinkType = typeStr(tv.Type)
+					}
+					var parent ast.Node
+					if len(stack) >= 2 {
+						parent = stack[len(stack)-2]
+					}
+					switch par := parent.(type) {
+					case *ast.AssignStmt:
+						for i, r := range par.Rhs {
+							if r == ast.Expr(call) && len(par.Lhs) == len(par.Rhs) {
+								if id := baseIdent(par.Lhs[i]); id != nil {
+									var o types.Object
+									if o = p.info.Defs[id]; o == nil {
+										o = p.info.Uses[id]
+									}
+									if o != nil {
+										st.flows = trackAfter(p.info, fd.Body, par.End(), map[types.Object]bool{o: true}, sorting)
+									}
+								}
+							}
+						}
+					case *ast.ReturnStmt:
+						st.flows = []string{"return"}
+					case *ast.CallExpr:
+						name := calleeName(p.info, par)
+						for i, a := range par.Args {
+							if a == ast.Expr(call) {
+								st.flows = []string{sortStrength(name, sorting[sortParam{name, i}]) + name}
+							}
+						}
+					default:
+						st.flows = []string{"used in place (range, index, …)"}
+					}
+					st.sorted, st.total = judgeFlows(st.flows, shortName(fnFull))
+					sites = append(sites, st)
+					return true
+				})
 				ast.Inspect(fd.Body, func(n ast.Node) bool {
 					rs, ok := n.(*ast.RangeStmt)
 					if !ok {
@@ -586,6 +657,18 @@ func genMapRanges(e *Env) (string, error) {
 											s.flows = flows
 											s.fnObj = p.info.Defs[fd.Name]
 											emit(s)
+											for _, fl := range flows {
+												if strings.HasPrefix(fl, "SORT") {
+													break
+												}
+												if fl == "INDEX0" {
+													// the first element of a slice still in map order is read
+													fs := base
+													fs.sink = "pick:first-element"
+													emit(fs)
+													break
+												}
+											}
 										}
 									}
 								}
